@@ -79,6 +79,21 @@ def get_yaml_default_loader():
         list("-+0123456789."),
     )
 
+    # Same as the default int resolver, but requiring a digit so that 0x_ or 0b_ do not fail in int()
+    remove_implicit_resolver(DefaultLoader, "tag:yaml.org,2002:int")
+    DefaultLoader.add_implicit_resolver(
+        "tag:yaml.org,2002:int",
+        re.compile(
+            """^(?:[-+]?0b_*[0-1][0-1_]*
+        |[-+]?0[0-7_]+
+        |[-+]?(?:0|[1-9][0-9_]*)
+        |[-+]?0x_*[0-9a-fA-F][0-9a-fA-F_]*
+        |[-+]?[1-9][0-9_]*(?::[0-5]?[0-9])+)$""",
+            re.X,
+        ),
+        list("-+0123456789"),
+    )
+
     yaml_default_loader = DefaultLoader
     return yaml_default_loader
 
